@@ -294,7 +294,7 @@ def r2(cx):
                 term = body.blocks[bi].term
                 if term.kind == "switch":
                     c = switch_cond(body, du, term)
-                    if c.kind == "discr" and c.place.l == t.dest.l:
+                    if c.kind == "discr" and (c.place.l == t.dest.l or (not c.place.p and [o for k, o in Slice(body, du).origins(c.place) if k == "call"] == [t])):
                         some = variant_edge(term, 1)
                         oks = any(e.bb in cfg.after(some, blocked_nodes=nexts) for e in errins) and cfg.must_pass(dst, list(nexts), {t.bb})
                         break
